@@ -38,11 +38,16 @@ def run(rep, tier, seed, model_ok):
             fs = [("c%d/%s" % (j, os.path.basename(p)), b) for j, (p, b) in enumerate(corpus[i:i + chunk])]
             scs.append(h2.Scenario(fs, "edit", structured=structured, name="corpus"))
     # (b) generated canonical statements, layouts, decoys
+    oracle = {}          # (structured, bytes) -> insertion offsets demanded by the property text (gen.py's oracle)
     for structured in (False, True):
-        files = gen.cfl_files(rng, 40 if quick else 300, structured)
+        cases = [gen.cfl_file(rng, structured, rich=rng.random() < 0.7) for _ in range(60 if quick else 400)]
+        for b, exp in cases:
+            oracle[(structured, b)] = sorted(e["pos"] for e in exp if e["ref"] is None and e["usable"])
+        files = [b for b, _ in cases]
         for i in range(0, len(files), 10):
             scs.append(h2.Scenario([("g%d.rs" % j, b) for j, b in enumerate(files[i:i + 10])], "edit",
-                                   structured=structured, name="generated"))
+                                   structured=structured, macros=gen.MACROS_ARG, lock=h2.lock_bytes(1000000),
+                                   name="generated"))
     # (c) malformed / mutated / multi-byte / CRLF / large
     mal = gen.malformed_files(rng, 60 if quick else 500)
     for structured in (False, True):
@@ -86,6 +91,13 @@ def run(rep, tier, seed, model_ok):
                                                                               "orig_b64": gen.b64(ob)})
                 continue
             problems = judge_file(ob, nb, e, structured)
+            if (structured, ob) in oracle and not problems and h2.exit_class(o) == "OK":
+                ins = scen.delete_tokens(ob, nb)
+                want = oracle[(structured, ob)]
+                if ins is not None and sorted(off for off, _ in ins) != want:
+                    problems.append("tokens inserted at %r; the statements that lack a reference (by the property text) "
+                                    "are at %r -- a statement that already carries a valid reference must receive nothing"
+                                    % (sorted(off for off, _ in ins), want))
             if problems:
                 rep.violation("%s: %s" % (rel, "; ".join(problems)[:500]),
                               {"kind": "file", "structured": structured, "orig_b64": gen.b64(ob),
